@@ -97,6 +97,11 @@ def _find_class_by_base(repo: Repo, modname: str, base_qual: str) -> List[str]:
     for ci in m.classes.values():
         if base_qual in repo.mro(ci.qual):
             out.append(ci.qual)
+    # classes the module merely re-exports (`from ._lexer import ODataLexer`) count as its own
+    for local, target in m.imports.items():
+        q = repo.canonical(target)
+        if q in repo.classes and q.startswith("odata_query.") and base_qual in repo.mro(q) and q not in out:
+            out.append(q)
     return out
 
 
@@ -112,11 +117,15 @@ def load_grammar(repo: Repo) -> GrammarModel:
     par = repo.classes[parsers[0]]
 
     # ---- lexer ---------------------------------------------------------------------------
-    def fold(e):
-        try:
-            return repo.fold(m, e)
-        except NotConst as ex:
-            raise AnalysisError(f"cannot fold constant expression `{ast.unparse(e)}`: {ex}", m.loc(e))
+    def fold_in(mod):
+        def fold(e):
+            try:
+                return repo.fold(mod, e)
+            except NotConst as ex:
+                raise AnalysisError(f"cannot fold constant expression `{ast.unparse(e)}`: {ex}", mod.loc(e))
+        return fold
+
+    fold = fold_in(lex.module)  # the lexer's constants are folded where the lexer is defined
 
     tokens_e = lex.assigns.get("tokens")
     if tokens_e is None:
@@ -161,10 +170,11 @@ def load_grammar(repo: Repo) -> GrammarModel:
     lexer_error = lex.methods.get("error")
 
     # ---- parser --------------------------------------------------------------------------
+    fold = fold_in(par.module)
     ptoks = par.assigns.get("tokens")
     same = False
     if ptoks is not None:
-        q = repo.resolve_expr(m, ptoks)
+        q = repo.resolve_expr(par.module, ptoks)
         same = q == f"{lex.qual}.tokens" or (isinstance(ptoks, ast.Attribute) and isinstance(ptoks.value, ast.Name)
                                                and ptoks.value.id == lex.name and ptoks.attr == "tokens")
         if not same:
